@@ -172,25 +172,26 @@ NOT_YET = "check not built yet in this session (designed in DESIGN.md §3; harne
 
 # additions made after the first version of each check (kept separate so the table above stays readable)
 ADDENDA = {
- "C01": "Plus HTTP/3 on loopback (real Core::listen with QUIC, registry authenticator, DirectForwarder, counting canary): the credential table x {CONNECT host:port, _check, _udp2} as one long session. quick 4000 / thorough 300k HTTP/2 histories.",
- "C02": "Plus L2 on loopback: position-coded streams through real HTTP/1.1, HTTP/2 and HTTP/3 tunnels over TLS/QUIC (sizes to 24 MiB > the HTTP/2 windows, slow readers, three closing orders), and an HTTP/2 connection-credit scenario (40/400 half-closed tunnels through a 64 KiB connection window). quick 6M + 100k L1 cases.",
- "C03": "quick also sweeps every /24 of IPv4; every literal spelling is handed to the connector both as a socket address and as a host name.",
- "C04": "Plus L2: ClientHellos split over several TLS records (client random unavailable) against client-random rules (fail closed, zero server bytes), and QUIC (allow/deny by CIDR and client random through a quiche client).",
+ "C17": "Wire part: response header values (every byte 0x80-0xff included) compared byte for byte through the real HTTP/1.1 and HTTP/2 codecs; origins that keep their connection open after the last byte.",
+ "C01": "Plus HTTP/3 on loopback (real Core::listen with QUIC, registry authenticator, DirectForwarder, counting canary): the credential table x {CONNECT host:port, _check, _udp2} as one long session. quick 4000 / thorough 300k HTTP/2 histories. 32 Proxy-Authorization spellings incl. a registered token outside the Basic form.",
+ "C02": "Plus L2 on loopback: position-coded streams through real HTTP/1.1, HTTP/2 and HTTP/3 tunnels over TLS/QUIC (sizes to 24 MiB > the HTTP/2 windows, slow readers, three closing orders), and an HTTP/2 connection-credit scenario (40/400 half-closed tunnels through a 64 KiB connection window). quick 6M + 100k L1 cases. A third of the L2 cases again through the real Socks5Forwarder and a relaying SOCKS5 proxy (one coalescing the destination's first bytes with its reply); steady transfers across a 2 s client listener timeout; HTTP/3 transfers with a 400 ms window in which every packet from the endpoint is lost (mid-transfer and tail loss).",
+ "C03": "quick also sweeps every /24 of IPv4; every literal spelling is handed to the connector both as a socket address and as a host name. IPv6 literals embedding a private IPv4 address must be attempted, if at all, at the literal itself (checked address = connected address).",
+ "C04": "Plus L2: ClientHellos split over several TLS records (client random unavailable) against client-random rules (fail closed, zero server bytes), and QUIC (allow/deny by CIDR and client random through a quiche client). Generated rule lists are round-tripped through a rules file and judged by the reference over every address x client random.",
  "C05": "Plus QUIC L2: certificate, h3 and channel per SNI through a quiche client; no session with the QUIC listener disabled.",
- "C06": "Record pool extended with IPv4-mapped, :: and ::2 endpoints (16 kinds).",
- "C07": "Operations added: peer restart (socket error surfacing on the receive path) and 2-3 DNS queries outstanding on one port-53 flow against a slow resolver; per-history loopback addresses for the port-53 servers.",
+ "C06": "Record pool extended with IPv4-mapped, :: and ::2 endpoints (16 kinds). Wire part: a _udp2 stream of the real HTTP/2 codec read by a client with a 150-1500 byte window that stops reading during a burst of echoes must be a sequence of whole 6.4 records.",
+ "C07": "Operations added: peer restart (socket error surfacing on the receive path) and 2-3 DNS queries outstanding on one port-53 flow against a slow resolver; per-history loopback addresses for the port-53 servers. The same clauses through the real Socks5Forwarder multiplexer and a relaying SOCKS5 proxy (flows sharing an association, port-53 flows, expiry of a sibling, associations open at the proxy).",
  "C08": "Tunnel part: deterministic boundary cases (cut at / around the end of the head, payload in the same read, either side closing, gaps 0/1 ms/10 s) + 3000 / 250k seeded cases.",
- "C09": "Families added: ICMP errors quoting a packet behind every IPv4 option length / IPv6 extension header with 0-12 bytes left; rules files with every prefix-length x mask-length client-random pattern, loaded and evaluated.",
- "C10": "Plus seeded HTTP/2 sessions of 2-7 concurrent requests with their own outcomes (600 / 40k), OS errors of the connect through the real TcpForwarder and its errno mapping (hook: scripted connect error), and HTTP/3 on loopback.",
- "C11": "Plus a private-network-namespace scenario (icmp_echo_ignore_all = 1): requests stay pending and are answered by the harness with echo replies, errors quoting 8 / 12 / all bytes, or nothing; each reported exactly once, table empty after the timeout.",
- "C12": "A well-formed hello of any size whose acceptor has not reported 6 s after the last byte was written is a violation (bytes lost behind the peek).",
- "C13": "Start-up matrix includes every pair of the four host classes sharing a name.",
- "C14": "Part C also drips a valid hello one byte per 0.4 T.",
- "C15": "quick 40k / thorough 3M dialogues.",
- "C16": "Plus an L1 UDP byte-accounting part (scripted forwarder side, hook run_udp_pipe_scripted) and connections that never become sessions (not TLS, unknown SNI, unknown ALPN, client gone mid-hello).",
- "C18": "Plus client-supplied X-Original-Protocol on the reverse proxy, and ping / speedtest over HTTP/3 on loopback.",
- "C19": "Executor participants take 0-2 steps between registration and their first wait and may have endless work; handlers part uses a logical registration barrier (hook Shutdown::verif_participants) and flags handlers holding a notification handle without a completion guard; plus HTTP/3 sessions after submit().",
- "C20": "Plus the C05 L2 scenarios (real TLS front end, SNI credentials label), Proxy-Authorization values without a space, and the real SOCKS5 upstream path; a record counts as emitted iff the endpoint's own logger accepts it; thorough = 12 rounds at different seeds.",
+ "C09": "Families added: ICMP errors quoting a packet behind every IPv4 option length / IPv6 extension header with 0-12 bytes left; rules files with every prefix-length x mask-length client-random pattern, loaded and evaluated. Datagrams from a SOCKS5 UDP relay to a live association (6 address types x every length 0-44); a panic escaping any check from outside the harness is reported as a violation.",
+ "C10": "Plus seeded HTTP/2 sessions of 2-7 concurrent requests with their own outcomes (600 / 40k), OS errors of the connect through the real TcpForwarder and its errno mapping (hook: scripted connect error), and HTTP/3 on loopback. Plus the real Socks5Forwarder against a proxy that accepts / rejects credentials / reports unreachable / TTL expired, for host:port, closed port, _udp2 and _check.",
+ "C11": "Plus a private-network-namespace scenario (icmp_echo_ignore_all = 1): requests stay pending and are answered by the harness with echo replies, errors quoting 8 / 12 / all bytes, or nothing; each reported exactly once, table empty after the timeout. Two more clients take strict turns with fixed TTL patterns on the shared raw socket; ICMPv6 errors quoting the first fragment of a request.",
+ "C12": "A well-formed hello of any size whose acceptor has not reported 6 s after the last byte was written is a violation (bytes lost behind the peek). QUIC: one-bit client-random rules judged against the client's own TLS key log, with ClientHellos spanning 1-3 Initial packets.",
+ "C13": "Start-up matrix includes every pair of the four host classes sharing a name. Passwords with colons through the wizard; a second credentials entry for the same user name; listen-address x credentials combinations.",
+ "C14": "Part C also drips a valid hello one byte per 0.4 T. Part D: the idle timer on the real clock (real Core::listen over TLS, T = 1 s).",
+ "C15": "quick 40k / thorough 3M dialogues. Marker bytes in the same write as a successful reply must be the first bytes of the tunnel; hostile relay datagrams caught per datagram.",
+ "C16": "Plus an L1 UDP byte-accounting part (scripted forwarder side, hook run_udp_pipe_scripted) and connections that never become sessions (not TLS, unknown SNI, unknown ALPN, client gone mid-hello). Port-53 flows in the UDP accounting; /metrics and /health-check under every combination of listen protocols; an HTTP/3 gauge scenario.",
+ "C18": "Plus client-supplied X-Original-Protocol on the reverse proxy, and ping / speedtest over HTTP/3 on loopback. Readers and writers slower than the session timeouts (speedtest, reverse proxy), reverse proxy over HTTP/3 (SNI and path mask), an origin that answers only after the whole request (two known findings), obs-text header values both ways, CONNECT bearing a ping marker.",
+ "C19": "Executor participants take 0-2 steps between registration and their first wait and may have endless work; handlers part uses a logical registration barrier (hook Shutdown::verif_participants) and flags handlers holding a notification handle without a completion guard; plus HTTP/3 sessions after submit(). (b') an HTTP/2 client whose view lags by 40 ms opens a stream while the GOAWAY is in flight.",
+ "C20": "Plus the C05 L2 scenarios (real TLS front end, SNI credentials label), Proxy-Authorization values without a space, and the real SOCKS5 upstream path; a record counts as emitted iff the endpoint's own logger accepts it; thorough = 12 rounds at different seeds. Every record is also handed to the endpoint's real FileLogger and StdoutLogger and the lines they write are scanned.",
 }
 for k, v in ADDENDA.items():
     CHECKS[k]["text"] = CHECKS[k]["text"] + " " + v
